@@ -48,7 +48,7 @@ Print Assumptions C19_declared_macro_not_listed.
 Theorem C19_plain_text_with_unknown_macros : forall rd fuel toks st st' out,
   bcl py_tables (macros st) toks ->
   exec py_tables rd fuel (TSeq toks None []) st = Ok (st', ASeq out []) ->
-  ExecUnk.nst py_tables out = ExecUnk.nst py_tables (plains (rtoks py_tables toks)) /\
+  ExecUnk.nst py_tables out = ExecUnk.nst py_tables (plains (rtoks py_tables (macros st) toks)) /\
   unknowns st' = fold_left add_unknown (unames (macros st) toks) (unknowns st) /\
   macros st' = macros st.
 Proof.
